@@ -1,6 +1,7 @@
 """C03 - the AST carries every element once, in order, with exact text."""
 from . import builder_rules as br
 from . import matcher_rules as mr
+from . import compiler_rules as cr, misc_rules as ms, line_rules as lr
 
 META = {
     "level": "other",
@@ -24,3 +25,7 @@ def run(rep):
     mr.rule_text_extraction(rep, "C03.text")
     mr.rule_docstring_fsm(rep, "C03.verbatim")
     mr.rule_reset(rep, "C03.reset", classes=(mr.MQ, "gherkin.ast_builder.AstBuilder"))
+    ms.rule_parse_resets(rep, "C03.fresh")
+    cr.rule_input(rep, "C03.immutable")
+    lr.rule_scanner(rep, "C03.line", "C03.scan")
+    mr.rule_other_text(rep, "C03.other")
